@@ -1,7 +1,7 @@
 (* C08 - combinatorial operators: graph Laplacian = degree - adjacency; adjacency / incidence patterns (one entry per incidence,
    documented sign and weight); tetrahedral dual Laplacian; mass matrices are diagonal with the stated totals.
    Commutative ring with Leibniz equality + "oofZ is the canonical map on naturals" (section hypotheses); axiom-free. *)
-From Coq Require Import ZArith List Bool Ring Lia ZifyBool.
+From Coq Require Import ZArith List Bool Ring Lia ZifyBool Arith.
 Import ListNotations.
 Require Import MV.Lib.Base MV.C08.Ops MV.C08.Gen MV.C08.Model MV.C08.Proofs_Struct MV.C08.Proofs_Dual.
 Open Scope Z_scope.
@@ -229,6 +229,24 @@ Proof.
   - reflexivity.
 Qed.
 
+(* the decidable condition evaluated on every generated tetrahedral mesh implies the two hypotheses *)
+Lemma cell_adjacency_ok_spec (C : list cell) : cell_adjacency_ok C = true ->
+  nb_symmetric (cell_nbrs C) (zlen C) /\ nb_closed (cell_nbrs C) (zlen C).
+Proof.
+  unfold cell_adjacency_ok. intros H. rewrite forallb_forall in H. split.
+  - intros a b Ha Hb. specialize (H a (proj2 (In_zrange _ _) Ha)). apply andb_true_iff in H. destruct H as [H _].
+    rewrite forallb_forall in H. specialize (H b (proj2 (In_zrange _ _) Hb)). apply Nat.eqb_eq in H. exact H.
+  - intros a b Ha Hin. specialize (H a (proj2 (In_zrange _ _) Ha)). apply andb_true_iff in H. destruct H as [_ H].
+    rewrite forallb_forall in H. specialize (H b Hin). lia.
+Qed.
+
+Theorem laplacian_tetrahedra_sym_rowsum (C : list cell) :
+  rs0 T O (laplacian_tetrahedra O C) /\ (cell_adjacency_ok C = true -> symm T O (laplacian_tetrahedra O C)).
+Proof.
+  unfold laplacian_tetrahedra. split; [apply tl_gen_rowsum|].
+  intros H. destruct (cell_adjacency_ok_spec C H) as [H1 H2]. apply tl_gen_symm; assumption.
+Qed.
+
 (* ------------------------------------------------------------------ mass matrices: diagonal, totals *)
 Lemma diag_from_offdiag (d : list T) k i j : i <> j -> entry O (diag_from k d) i j = 0.
 Proof.
@@ -326,7 +344,7 @@ Theorem documented_weights_shapes :
   (forall a : T, mass_edge_share O a = odiv O a (three O)) /\
   (forall a : T, massv_contrib a = a) /\ (forall a : T, massvv_contrib a = a) /\
   (forall l : T, v2f_weight O l = odiv O 1 l) /\
-  (forall n : Z, lap_shape n = (n, n)) /\ (forall n m : Z, gl_shape n m = (n, n)) /\
+  (forall n : Z, lap_shape n = (n, n)) /\ (forall m : Z, lape_shape m = (m, m)) /\ (forall n m : Z, gl_shape n m = (n, n)) /\
   (forall n m : Z, adj_shape n m = (n, n)) /\ (forall n m : Z, v2e_shape n m = (n, m)) /\
   (forall n m : Z, v2f_shape n m = (m, n)).
 Proof. repeat split. Qed.
